@@ -27,7 +27,8 @@ for item in sys.argv[3:]:
     wt = "/tmp/seedrun/w%s" % worker
     shutil.rmtree(wt, ignore_errors=True)
     subprocess.check_call(["rsync", "-a", "--exclude", "target", "--exclude", ".git", "/repo/", wt + "/"])
-    rec = dict(seed=item, property=P)
+    prop_id = ("C" + P[1:]) if P.startswith("S") else P
+    rec = dict(seed=item, property=prop_id)
     t0 = time.time()
     rc, out = sh("patch -p1 < %s/patch.diff" % sd, wt)
     rec["patch_applies"] = rc == 0
@@ -50,7 +51,7 @@ for item in sys.argv[3:]:
     sh("patch -p1 < %s/patch.diff" % sd, wt)
     # the checks
     cenv = dict(os.environ, VERIF_REPO=wt, VERIF_EVIDENCE_DIR="/tmp/seedrun/ev%s" % worker, VERIF_REPLAY_DIR="/tmp/seedrun/rp%s" % worker, VERIF_NO_REPLAY="1")
-    props = [P] + sys_extra.get(item, []) if (sys_extra := globals().get("EXTRA", {})) is not None else [P]
+    props = [prop_id]
     rec["checks"] = {}
     for q in props:
         try:
